@@ -355,7 +355,7 @@ func newChassis(id int, root string) (*chassis, error) {
 			nn.mu.Unlock()
 			// loop breaker: a correct cluster shows at most 2 inbound requests per case (client + one forward);
 			// a forwarding loop is cut here once it is beyond doubt, so that a broken tree is reported quickly
-			if ch.caseInbound.Add(1) > maxInboundPerCase {
+			if cur != "" && ch.caseInbound.Add(1) > maxInboundPerCase {
 				ch.broken.Add(1)
 				return c.Status(599).SendString("c30 harness: forwarding loop cut")
 			}
